@@ -276,6 +276,9 @@ func run(c Case, ev *pbt.Ev) error {
 			}
 			if ok == 0 {
 				ev.Class("resolve-refused-registry-down")
+				if prev := cached[s.Layer]; prev != nil && c.Cfg.ValidSec > 0 {
+					prev.fuzzy = true // its connectivity check may have failed and dropped it from the cache
+				}
 				continue
 			}
 			// which instance do they share?  The model knows for sure only outside an uncertainty window around the
@@ -344,6 +347,11 @@ func run(c Case, ev *pbt.Ev) error {
 			st.Reg.SetDown(true)
 			l, err := st.Resolve(lds[s.Layer].desc)
 			st.Reg.SetDown(down)
+			if prev := cached[s.Layer]; prev != nil && c.Cfg.ValidSec > 0 {
+				// with a short check interval the cached instance's connectivity check reaches the (unreachable)
+				// registry and the instance may have been dropped from the cache
+				prev.fuzzy = true
+			}
 			if err == nil {
 				// legitimate: the blob and its chunks can still be in the local caches.  If that created a new
 				// instance it now sits in the resolver cache.
